@@ -209,6 +209,7 @@ class _Sim(object):
         self.registrations = []
         self.converter_calls = 0
         self.nested_texts = {}
+        self.nested_fail = None
         self.initial_root_handlers = None
         self.harness_errors = []
         self.recorders = []
@@ -352,6 +353,17 @@ class _Sim(object):
                 lg = logging.getLogger(act["logger"] or None)
                 lg.log(getattr(logging, act["level"]), m)
                 ev["did"].append(["log", act["logger"], act["level"], m])
+            elif a == "log_burst":
+                # one marker record followed by more records than a buffering handler's default capacity
+                m = self.next_marker("log", scen_id, ev)
+                self.markers[-1]["logger"] = ""
+                self.markers[-1]["level"] = "ERROR"
+                logging.getLogger().error(m)
+                lg = logging.getLogger("burst")
+                for k in range(act.get("n", 1005)):
+                    lg.error("filler %d", k)
+                ev["did"].append(["log_burst", act.get("n", 1005), m])
+                self.fire("log_burst")
             elif a == "set":
                 self.ctx_val_n += 1
                 val = "val%d" % self.ctx_val_n
@@ -381,6 +393,16 @@ class _Sim(object):
                     else:
                         target.mark_skipped()
                     ev["did"].append(["skip_element", act["how"]])
+            elif a == "skip_container":
+                # user code decides mid-run to skip (the rest of) the enclosing feature / rule
+                try:
+                    target = getattr(context, act["what"], None) if act["what"] in context else None
+                except Exception:
+                    target = None
+                if target is not None:
+                    target.skip(reason="because" if act.get("reason") else None)
+                    ev["did"].append(["skip_container", act["what"]])
+                    self.fire("skip_container_midrun")
             elif a == "execute_steps":
                 self.do_execute_steps(ev, context, act)
             elif a == "autoretry":
@@ -542,16 +564,22 @@ class _Sim(object):
         text = u"\n".join(lines) + u"\n"
         before = (getattr(context, "text", None), getattr(context, "table", None))
         res = None
+        self.nested_fail = None
+        if act.get("fail") and defs:
+            # one of the nested step FUNCTIONS fails (assertion / exception), not only "no definition"
+            self.nested_fail = {"n": rng.randrange(max(1, act["n"])), "kind": act["fail"]}
         try:
             self.fire("execute_steps")
             res = context.execute_steps(text)
             ev["did"].append(["execute_steps", act["n"], "ok"])
         except AssertionError:
+            self.nested_fail = None
             ev["did"].append(["execute_steps", act["n"], "AssertionError"])
             after = (getattr(context, "text", None), getattr(context, "table", None))
             ev["did"].append(["text_table_same", before[0] is after[0] or before[0] == after[0],
                               before[1] is after[1]])
             raise
+        self.nested_fail = None
         after = (getattr(context, "text", None), getattr(context, "table", None))
         ev["did"].append(["text_table_same", before[0] is after[0] or before[0] == after[0],
                           before[1] is after[1]])
@@ -734,6 +762,13 @@ class _Sim(object):
         try:
             self.probe(ev, context)
             ent = self.script.get(key) if not nested else None
+            if nested and getattr(self, "nested_fail", None) is not None:
+                nf = self.nested_fail
+                nf["n"] -= 1
+                if nf["n"] < 0:
+                    self.nested_fail = None
+                    self.fire("nested_step_fails")
+                    self.realise(ev, {"kind": nf["kind"], "msg": "nested step fails", "cls": "RuntimeError"}, context)
             if ent:
                 try:
                     self.do_actions(ev, context, ent["acts"], sid, None)
@@ -747,6 +782,12 @@ class _Sim(object):
             self.clock.advance(0.05)
             self.stack.pop()
 
+    def ensure_async_context(self, context):
+        if "sim_actx" not in context:
+            from behave.api.async_step import AsyncContext
+            context.sim_actx = AsyncContext(loop=make_virtual_loop(self.clock), name="sim_actx", should_close=True)
+            self.fire("async-context-created")
+
     def step_async(self, def_id, context, args, kwargs, async_wrapper):
         """Sync shim around an async step wrapped by behave's async_run_until_complete:
         records what the step function (as behave sees it) did."""
@@ -758,7 +799,8 @@ class _Sim(object):
             if "TIMEOUT" in str(e):
                 self.fire("async-step-timeout")
                 ev = self._async_ev
-                if ev is not None:
+                if ev is not None and ev.get("raised") is None and not ev.get("completed"):
+                    # (a genuine timeout: the coroutine neither returned nor raised by itself)
                     ev["raised"] = "AssertionError"
                     ev["abandoned"] = True
                     ev["did"].append(["async_timeout"])
@@ -975,11 +1017,18 @@ def render_step_module(world, mod, mi):
         if d.get("async"):
             tmo = d["async"].get("timeout")
             lines.append("from behave.api.async_step import async_run_until_complete")
-            lines.append("@async_run_until_complete(loop=SIM.vloop%s)" % (", timeout=%r" % tmo if tmo else ""))
+            if d["async"].get("actx"):
+                # the documented variant with a user-created AsyncContext shared by the async steps
+                # of one scenario (its own virtual-time loop, closed with the context object)
+                lines.append("@async_run_until_complete(async_context='sim_actx'%s)" % (", timeout=%r" % tmo if tmo else ""))
+            else:
+                lines.append("@async_run_until_complete(loop=SIM.vloop%s)" % (", timeout=%r" % tmo if tmo else ""))
             lines.append("async def _a_%s(context, *args, **kwargs):" % d["id"])
             lines.append("    await SIM.astep_body(%r, context, args, kwargs)" % d["id"])
             lines.append("@%s(%r)" % (d["type"], pat))
             lines.append("def %s(context, *args, **kwargs):" % d["id"])
+            if d["async"].get("actx"):
+                lines.append("    SIM.ensure_async_context(context)")
             lines.append("    SIM.step_async(%r, context, args, kwargs, _a_%s)" % (d["id"], d["id"]))
             lines.append("SIM.registered(%r)" % d["id"])
             lines.append("")
